@@ -5,15 +5,19 @@ CONSTANTS MaxLen
 VARIABLE row
 Classes == {"plain", "hexletter", "hexupper", "digit", "dq", "sq", "bs", "lf", "cr", "ff", "tab", "sp", "lp", "rp", "sc", "cm", "starslash",
             "lb", "rb", "nonascii", "astral", "ctl"}
-Positions == {"string", "url", "ident", "class", "id", "attrvalue", "nsuri", "href", "comment"}
+Positions == {"string", "url", "ident", "class", "id", "attrvalue", "nsuri", "href", "comment", "comment-in-block"}
 Contents == UNION {[1..k -> Classes] : k \in 0..MaxLen}
 CommentOk(cs) == \A i \in 1..Len(cs) : cs[i] \notin {"starslash", "ctl", "cr", "ff", "bs"}
 HasNonAscii(cs) == \E i \in 1..Len(cs) : cs[i] \in {"nonascii", "astral"}
 Rows == {[kind |-> "content", pos |-> p, cs |-> c, enc |-> "utf-8"] : p \in Positions, c \in Contents}
         \cup {[kind |-> "content", pos |-> p, cs |-> c, enc |-> e] : p \in Positions, c \in {x \in Contents : HasNonAscii(x)}, e \in {"ascii", "iso-8859-1"}}
-Init == row \in {r \in Rows : (r.pos = "comment" => CommentOk(r.cs)) /\ (r.pos \in {"ident", "class", "id", "href", "nsuri"} => Len(r.cs) > 0)}
+\* an @import rule (comment before / after the href or none, with or without name and media) after an accepted DOM edit of it
+ImportEditRows == {[kind |-> "importedit", cm |-> c, name |-> n, media |-> m, edit |-> e] :
+                      c \in {"none", "before-href", "after-href"}, n \in BOOLEAN, m \in {"none", "print"},
+                      e \in {"mediaText", "mediaobject", "href", "name", "none"}}
+Init == row \in ImportEditRows \cup {r \in Rows : (r.pos \in {"comment", "comment-in-block"} => CommentOk(r.cs)) /\ (r.pos \in {"ident", "class", "id", "href", "nsuri"} => Len(r.cs) > 0)}
 Next == UNCHANGED row
 Spec == Init /\ [][Next]_row
-QuoteLossless == Unquote(Quote(row.cs)) = row.cs /\ NoRawBreaker(Quote(row.cs))
+QuoteLossless == row.kind = "content" => Unquote(Quote(row.cs)) = row.cs /\ NoRawBreaker(Quote(row.cs))
 EmitRow == PrintT(<<"ROW", ToJson(row)>>)
 =============================================================================
